@@ -66,6 +66,17 @@ def correspondence(ck, drv, tu, tcs, maxsize, seed):
             ck.case(("tile", ln, repr(nv)), nontrivial=(im[0] == "ok" and ln > 1))
             if m != im2:
                 mm.append({"fn": "tile", "x": flat(x), "n": repr(nv), "model": m, "impl": im2})
+    # inputs of any shape: tile works on the flattened tensor
+    for sh in shapes_upto(3, maxsize):
+        x = iota(sh)
+        for nv in (1, 2, 3):
+            m = model_call(ck, drv, "tile", Z(flat(x)), p(nv))
+            im = attempt(tu.tile, x, nv)
+            im2 = ("ok", [flat(im[1])]) if im[0] == "ok" else im[:2]
+            n += 1
+            ck.case(("tile-nd", tuple(sh), nv), nontrivial=(im[0] == "ok" and len(sh) > 1))
+            if m != im2:
+                mm.append({"fn": "tile", "shape": list(sh), "n": nv, "model": m, "impl": im2})
     ck.sample({"fn": "tile", "x": [10, 11, 12], "n": 2, "impl": flat(tu.tile(torch.arange(10, 13), 2))})
     ck.correspondence("tile", n, mm)
 
@@ -202,6 +213,15 @@ def search(ck, tu, tcs, maxsize, seed):
             if flat(out) != exp:
                 ck.finding("tile:copies-not-consecutive", "tile(%s,%d) = %s, expected %s" % (flat(x0), nr, flat(out), exp),
                            {"search": "tile", "x": flat(x0), "n": nr})
+    for sh in shapes_upto(3, maxsize):
+        x = iota(sh)
+        for nr in (1, 2, 3):
+            out = attempt(tu.tile, x, nr)
+            ck.case(("s-tile-nd", tuple(sh), nr))
+            exp = [v for v in flat(x) for _ in range(nr)]
+            if out[0] != "ok" or flat(out[1]) != exp:
+                ck.finding("tile:copies-not-consecutive", "tile(arange.reshape%s, %d) = %s, expected %s" % (
+                    tuple(sh), nr, flat(out[1]) if out[0] == "ok" else out[1:], exp), {"search": "tile", "shape": list(sh), "n": nr})
     # repeat_rows / merge / split / sum_except_batch
     for sh in shapes_upto(3, maxsize):
         x = iota(sh)
